@@ -708,6 +708,34 @@ def rule_det(F, rule_id="M-DET", expect_positive=None):
     return res
 
 
+def rule_compall(F):
+    """M-COMPALL: every rule group the component-mode module imports gets its component library.
+
+    display_ram_module emits an import and a call for every element of the list of rule groups, and
+    remove_stale_component_files keeps the files of every element; so the closure that process_file runs over that list must
+    reach compile_component_rlib on every path that ends in Ok (a skipped element links against nothing, or against a stale
+    library of an earlier version)."""
+    res = RuleResult("M-COMPALL")
+    b = F.one("build::process_file")
+    cls = [cl for cl in F.closures_of(b) if _reaches(F, cl, "build::compile_component_rlib")]
+    if len(cls) != 1:
+        raise AnchorError("expected one closure of process_file reaching compile_component_rlib, found %d" % len(cls))
+    cl = cls[0]
+    calls = [bb for bb, t in cl.calls() if short(callee(t)) == "build::compile_component_rlib"]
+    oks = _ok_exits(cl)
+    if not calls or not oks:
+        raise AnchorError("closure of process_file: %d calls of compile_component_rlib, %d Ok exits" % (len(calls), len(oks)))
+    for o in oks:
+        if any(cl.dominates(c, o) for c in calls):
+            res.ok()
+        else:
+            res.bad("M-COMPALL:process_file:ok-without-component", cl.where(o),
+                    "the per-rule-group closure of process_file can return Ok without having called compile_component_rlib: the module still imports that group's symbol")
+    # the list the closure runs over is the list the component-mode module is rendered from and the stale-file scan keeps
+    res.sample({"closure": cl.path, "calls": len(calls), "ok_exits": len(oks)})
+    return res
+
+
 def rule_par(F):
     """M-PAR: the closure run in parallel shares only immutable, cell-free data and is the only parallel section."""
     res = RuleResult("M-PAR")
